@@ -80,24 +80,33 @@ pub fn from_zmq(m: &ZmqMessage) -> Vec<Vec<u8>> {
 }
 
 pub const TAG_LEN: usize = 8;
-/// message whose frames have the given lengths (plus an 8-byte tag appended to the last frame)
+/// shape entry for an empty frame that FOLLOWS the tagged frame (a message whose last frame is empty)
+pub const TAIL_EMPTY: usize = usize::MAX;
+/// message whose frames have the given lengths (plus an 8-byte tag appended to the last frame that
+/// is not a `TAIL_EMPTY` one)
 pub fn tagged(origin: u16, seq: u32, shape: &[usize]) -> Vec<Vec<u8>> {
     let mut frames = Vec::with_capacity(shape.len());
     for (fi, len) in shape.iter().enumerate() {
+        if *len == TAIL_EMPTY {
+            frames.push(Vec::new());
+            continue;
+        }
         let mut f = Vec::with_capacity(*len + TAG_LEN);
         for i in 0..*len {
             f.push((origin as usize * 31 + seq as usize * 7 + fi * 13 + i * 3 + 1) as u8);
         }
         frames.push(f);
     }
-    let last = frames.last_mut().expect("shape non-empty");
+    let at = shape.iter().rposition(|l| *l != TAIL_EMPTY).expect("shape has a frame that carries the tag");
+    let last = &mut frames[at];
     last.extend_from_slice(&[0xA5, 0x5A]);
     last.extend_from_slice(&origin.to_be_bytes());
     last.extend_from_slice(&seq.to_be_bytes());
     frames
 }
+/// the tag sits at the end of the last non-empty frame
 pub fn tag_of(frames: &[Vec<u8>]) -> Option<(u16, u32)> {
-    let l = frames.last()?;
+    let l = frames.iter().rev().find(|f| !f.is_empty())?;
     if l.len() < TAG_LEN {
         return None;
     }
